@@ -56,12 +56,14 @@ static void hex(char *out, size_t cap, const unsigned char *p, size_t n)
 #define SEQ_GUARD 16		/* guard bytes on each side of the 16-byte window */
 #define SEQ_WIN 16
 #define SEQ_IMG (SEQ_GUARD + SEQ_WIN + SEQ_GUARD)
+#define SEQ_MAX_FAILS 400u	/* global bound; per (operation, width) bound in seq_skip() */
 
 struct seq_ctx {
 	unsigned char *real, *ref;	/* SEQ_IMG bytes each, 64-byte aligned, heap */
 	uint64_t evals, nontrivial;
 	unsigned fails, fails_nobar;
-	char failed_bw[32][24];		/* "base:w" pairs that failed WITH the barrier */
+	char failed_bw[64][24];		/* "base:w" pairs that failed WITH the barrier */
+	unsigned failed_cnt[64];
 	int nfailed_bw;
 	int want_sample, nsampled;
 	const char *sample_op[4];
@@ -130,10 +132,15 @@ static void seq_fail(struct seq_ctx *c, int nobar, const char *vname, const char
 	int seen_with_barrier = 0;
 	snprintf(bw, sizeof(bw), "%s:%d", base, w);
 	for (int i = 0; i < c->nfailed_bw; i++)
-		if (!strcmp(c->failed_bw[i], bw))
+		if (!strcmp(c->failed_bw[i], bw)) {
 			seen_with_barrier = 1;
-	if (!nobar && !seen_with_barrier && c->nfailed_bw < 32)
+			if (!nobar)
+				c->failed_cnt[i]++;
+		}
+	if (!nobar && !seen_with_barrier && c->nfailed_bw < 64) {
+		c->failed_cnt[c->nfailed_bw] = 1;
 		snprintf(c->failed_bw[c->nfailed_bw++], sizeof(c->failed_bw[0]), "%s", bw);
+	}
 	if (nobar && seen_with_barrier)
 		return;		/* already reported by the barrier pass: not a compiler-visibility problem */
 	if (nobar) {
@@ -157,6 +164,17 @@ static void seq_fail(struct seq_ctx *c, int nobar, const char *vname, const char
 	if (!bad_ret && !bad_mem && !bad_nb)
 		SEQ_REPORT("image-mismatch");
 #undef SEQ_REPORT
+}
+
+/* an (operation, width) that already failed repeatedly is not exercised further; the others go on */
+static int seq_skip(const struct seq_ctx *c, const char *base, int w)
+{
+	char bw[24];
+	snprintf(bw, sizeof(bw), "%s:%d", base, w);
+	for (int i = 0; i < c->nfailed_bw; i++)
+		if (!strcmp(c->failed_bw[i], bw))
+			return c->failed_cnt[i] >= 6;
+	return 0;
 }
 
 /* out-of-line slow path of the drivers: mismatch report or sample; returns 1 on mismatch */
@@ -347,11 +365,13 @@ static void seq_run_type(struct seq_ctx *c, const struct seq_type *t, int nrand,
 	const char sc = t->sgn ? 's' : 'u';
 
 	/* operand classes x operand classes, every variant, every aligned offset, 3 canary fills */
-	for (int fill = 0; fill < 3 && c->fails < 64; fill++) {
-		for (unsigned off = 0; off < SEQ_WIN && c->fails < 64; off += (unsigned) t->w) {
+	for (int fill = 0; fill < 3 && c->fails < SEQ_MAX_FAILS; fill++) {
+		for (unsigned off = 0; off < SEQ_WIN && c->fails < SEQ_MAX_FAILS; off += (unsigned) t->w) {
 			seq_fill(c, fill, off * 8 + (unsigned) t->w);
 			for (int v = 0; v < t->ntab; v++) {
 				const struct seq_variant *var = &t->tab[v];
+				if (seq_skip(c, var->base, t->w))
+					continue;
 				if (fill == 0 && off == (unsigned) t->w && !strcmp(var->base, c->sample_op[c->nsampled % 4]) &&
 				    variant_is_base(var) && c->nsampled < 4 && (int) (t - seq_types) == 2 * c->nsampled + 1) {
 					c->want_sample = 1;
@@ -369,7 +389,7 @@ static void seq_run_type(struct seq_ctx *c, const struct seq_type *t, int nrand,
 	free(pv);
 
 	/* exhaustive: all (old, operand) pairs for width 1, all olds x several operands for width 2 */
-	if (t->w <= 2 && c->fails < 64) {
+	if (t->w <= 2 && c->fails < SEQ_MAX_FAILS) {
 		size_t nold = t->w == 1 ? 256 : 65536, nop;
 		uint64_t *all = malloc(nold * sizeof(uint64_t));
 		uint64_t ops[512];
@@ -392,11 +412,11 @@ static void seq_run_type(struct seq_ctx *c, const struct seq_type *t, int nrand,
 			}
 			pop = pack_vals(2, ops, nop);
 		}
-		for (unsigned off = 0; off < SEQ_WIN && c->fails < 64; off += (unsigned) t->w) {
+		for (unsigned off = 0; off < SEQ_WIN && c->fails < SEQ_MAX_FAILS; off += (unsigned) t->w) {
 			seq_fill(c, 0, 1000 + off * 8 + (unsigned) t->w);
 			for (int v = 0; v < t->ntab; v++) {
 				const struct seq_variant *var = &t->tab[v];
-				if (!variant_is_base(var))
+				if (!variant_is_base(var) || seq_skip(c, var->base, t->w))
 					continue;
 				var->fn(c, off, pold, nold, pop, var->uses_a ? nop : 1);
 				if (off == 0)
@@ -438,7 +458,7 @@ static void seq_run_type_nobar(struct seq_ctx *c, const struct seq_type *t, int 
  * same window (no re-initialisation between steps): neighbours hold live data of other widths */
 static void seq_run_prog(struct seq_ctx *c, long steps)
 {
-	for (long s = 0; s < steps && c->fails < 64; s++) {
+	for (long s = 0; s < steps && c->fails < SEQ_MAX_FAILS; s++) {
 		if ((s & 63) == 0) {
 			for (unsigned i = 0; i < SEQ_IMG; i++)
 				c->real[i] = c->ref[i] = (unsigned char) vp_rand(&c->rng);
@@ -456,6 +476,8 @@ static void seq_run_prog(struct seq_ctx *c, long steps)
 		default: a = vp_rand(&c->rng) >> vp_rand_n(&c->rng, 64); break;
 		}
 		a &= wmask(t->w);
+		if (seq_skip(c, var->base, t->w))
+			continue;
 		wr_le(c->tmp_old, t->w, old);
 		wr_le(c->tmp_a, t->w, a);
 		var->fn(c, off, c->tmp_old, 1, c->tmp_a, 1);
@@ -497,6 +519,7 @@ static void run_seq(void)
 /* ====================================================================== (ii) concurrent */
 
 #define MAX_THR 16
+#define CONC_MAX_LOGGED (4L << 20)	/* logged return values per thread and test */
 
 struct conc_res {
 	uint64_t v[8];
@@ -790,7 +813,9 @@ static void run_conc_type(struct conc_ctx *cc, const struct conc_type *t, struct
 	}
 	/* ---------------- tickets (add_return / sub_return by 1) */
 	{
-		long n = t->w == 1 ? round_up(nops, 256) : t->w == 2 ? round_up(nops, 65536) : nops;
+		/* every returned value is logged: bound the log (memory) in the thorough tier */
+		long nlog = nops > CONC_MAX_LOGGED ? CONC_MAX_LOGGED : nops;
+		long n = t->w == 1 ? round_up(nlog, 256) : t->w == 2 ? round_up(nlog, 65536) : nlog;
 		uint64_t total = (uint64_t) n * (uint64_t) N;
 		area_prepare(cc, r);
 		unsigned off = pick_off(r, t->w);
@@ -885,7 +910,8 @@ static void run_conc_type(struct conc_ctx *cc, const struct conc_type *t, struct
 	}
 	/* ---------------- cmpxchg increment loop */
 	{
-		long n = t->w == 1 ? round_up(nops / 2, 256) : t->w == 2 ? round_up(nops / 2, 65536) : nops / 2;
+		long nlog = nops / 2 > CONC_MAX_LOGGED ? CONC_MAX_LOGGED : nops / 2;
+		long n = t->w == 1 ? round_up(nlog, 256) : t->w == 2 ? round_up(nlog, 65536) : nlog;
 		uint64_t total = (uint64_t) n * (uint64_t) N;
 		area_prepare(cc, r);
 		unsigned off = pick_off(r, t->w);
